@@ -93,6 +93,9 @@ func generatedPrograms() []string {
 		"set t to transform debug 'x' return tail match + 'y' <= 'z' == true != false end\nreplace all 'a' with t",
 		"find all line start whole word word end line end file start file end word start whole line whole file",
 		"find all not line start not word end not 'x' not any not digit not in upper, lower",
+		// sources whose last command is a definition: the closing `end` (or the pattern body) is the last token
+		"find all 'a'\nset t to transform return match end", "find all 'a'\nset p to pattern 'b' begin return true end",
+		"set f to function if true then return 1 else return 2 end end", "find all 'a' set q to pattern 'b' or 'c'", "replace all 'a' with 'b' set m to matches find all 'c'",
 	)
 	return out
 }
